@@ -16,6 +16,9 @@ use rt::spec::Entry;
 /// the same worlds decide C11 (bridge) and contribute to C02 (dispatch on a custom chain)
 pub struct CustomChain {
     pub prop: &'static str,
+    /// worlds on the plain chain, of contracts that write the empty custom types out and bridge
+    /// interfaces into them
+    pub spelled_empty: bool,
 }
 
 impl Profile for CustomChain {
@@ -23,9 +26,42 @@ impl Profile for CustomChain {
         self.prop
     }
     fn name(&self) -> &'static str {
-        "f5-custom-chain"
+        if self.spelled_empty {
+            "f1-bridged-empty"
+        } else {
+            "f5-custom-chain"
+        }
     }
     fn gen_world(&self, rng: &mut Rng, reg: &Reg) -> WorldPlan {
+        if self.spelled_empty {
+            let mut p: Vec<&Entry> = reg.tagged("bridged_empty");
+            let others: Vec<&Entry> = reg.family("f1").into_iter().filter(|e| e.spec.has_tag("regular")).take(6).collect();
+            let n = rng.range(1, 3) as usize;
+            // the subject first, then whoever
+            let mut pool = p.clone();
+            pool.extend(p.drain(..));
+            pool.extend(others);
+            let mut wp = simple_world(rng, reg, &pool, n, false);
+            if let (Some(first), Some(subject)) = (wp.codes.first().cloned(), reg.tagged("bridged_empty").first()) {
+                if !reg.get(&first.cid).map(|e| e.spec.has_tag("bridged_empty")).unwrap_or(false) {
+                    // make sure the world has a subject: re-draw with the subject alone in front
+                    let only = vec![*subject];
+                    let w1 = simple_world(rng, reg, &only, 1, false);
+                    let mut w2 = wp;
+                    w2.codes.insert(0, w1.codes[0].clone());
+                    let mut setup = w1.setup;
+                    for op in w2.setup.iter_mut() {
+                        if let Op::Instantiate { code, .. } = op {
+                            *code += 1;
+                        }
+                    }
+                    setup.extend(w2.setup);
+                    w2.setup = setup;
+                    wp = w2;
+                }
+            }
+            return wp;
+        }
         let p: Vec<&Entry> = reg.family("f5");
         let n = rng.range(1, 3 + crate::extra_contracts()) as usize;
         simple_world(rng, reg, &p, n, true)
